@@ -71,6 +71,11 @@ TwoBoxV == Corners(<<16, 16, 16>>) \o [i \in 1..8 |-> Add3(Corners(<<16, 16, 16>
 TwoBoxF == BoxFaces \o [i \in 1..12 |-> <<BoxFaces[i][1] + 8, BoxFaces[i][2] + 8, BoxFaces[i][3] + 8>>]
 OpenBoxF == SubSeq(FlippedBoxFaces, 1, 11)
 BoxObs == <<<<1, 3, -5>>, <<7, 3, -5>>, <<9, 3, -5>>, <<9, 17, -5>>>>
+BoxMesh12 == MeshSrc(<<BoxV(<<16, 32, 48>>), BoxFaces>>, <<1, 2, 3>>, <<P12>>)
+P12B == Pose(Add3(P12.p, MulMV(P12.r, <<48, 0, 0>>)), P12.r)          \* a second body next to the first one
+\* inside the first only, inside the second only (each at local coordinates that are OUTSIDE the shape of the other body: a mix-up
+\* of the bodies in a joint evaluation cannot go unnoticed), between them
+PairObs == <<<<1, 11, -5>>, <<59, 3, -5>>, <<21, 3, -5>>>>
 C12Defs == [
   Cuboid |-> [s |-> Src("Cuboid", <<16, 32, 48>>, <<1, 2, 3>>, <<P12>>), o |-> BoxObs, l |-> <<"deep_in", "face_in", "face_out", "edge">>],
   Cylinder |-> [s |-> Src("Cylinder", <<32, 48>>, <<1, 2, 3>>, <<P12>>), o |-> <<<<1, 3, -5>>, <<15, 1, 3>>, <<17, 1, 3>>, <<17, 1, 25>>>>, l |-> <<"deep_in", "face_in", "face_out", "edge">>],
@@ -85,11 +90,22 @@ C12Defs == [
   Triangle |-> [s |-> Src("Triangle", TriV(4), <<1, 2, 3>>, <<P12>>), o |-> <<<<11, 15, 5>>, <<5, -7, 13>>, <<-1, 21, 1>>, <<1, -64, 1>>>>, l |-> <<"close", "gen", "close", "edge_ext">>],
   Circle |-> [s |-> Src("Circle", <<32>>, <<2>>, <<P12>>), o |-> <<<<15, 5, 1>>, <<3, 5, 7>>, <<21, -9, 5>>>>, l |-> <<"close", "gen", "gen">>],
   Polyline |-> [s |-> Src("Polyline", LineV(4), <<3>>, <<P12>>), o |-> <<<<15, 1, 1>>, <<5, -7, 13>>, <<33, 21, -1>>>>, l |-> <<"close", "gen", "close">>],
-  Dipole |-> [s |-> Src("Dipole", <<>>, <<1, 2, 3>>, <<P12>>), o |-> <<<<1, 1, -1>>, <<3, 5, 7>>, <<161, -75, 33>>>>, l |-> <<"close", "gen", "gen">>]]
+  Dipole |-> [s |-> Src("Dipole", <<>>, <<1, 2, 3>>, <<P12>>), o |-> <<<<1, 1, -1>>, <<3, 5, 7>>, <<161, -75, 33>>>>, l |-> <<"close", "gen", "gen">>],
+  \* the same box through the other constructors of the class (every decade, also lattice units that are not round numbers of metres)
+  MeshFromTriangles |-> [s |-> [BoxMesh12 EXCEPT !.rep = "from_triangles"], o |-> BoxObs \o <<<<136, 17, 25>>>>, l |-> <<"deep_in", "face_in", "face_out", "edge", "edge_ext">>],
+  MeshFromMesh |-> [s |-> [BoxMesh12 EXCEPT !.rep = "from_mesh"], o |-> BoxObs, l |-> <<"deep_in", "face_in", "face_out", "edge">>],
+  MeshHull |-> [s |-> [BoxMesh12 EXCEPT !.rep = "from_ConvexHull", !.geo = <<BoxV(<<16, 32, 48>>), <<>>>>], o |-> BoxObs, l |-> <<"deep_in", "face_in", "face_out", "edge">>],
+  TriColl |-> [s |-> [BoxMesh12 EXCEPT !.cls = "TriangleCollection", !.rep = "to_TriangleCollection"], o |-> BoxObs, l |-> <<"gen", "close", "close", "gen">>],
+  \* several magnets in ONE field call: two different meshes with the same number of faces, a mesh next to a cuboid; observers
+  \* strictly inside exactly one of the bodies
+  MeshPair |-> [s |-> <<BoxMesh12, [MeshSrc(<<BoxV(<<32, 16, 48>>), BoxFaces>>, <<2, -1, 3>>, <<P12B>>) EXCEPT !.rep = "ctor"]>>, o |-> PairObs, l |-> <<"in_one", "in_one", "out">>],
+  MeshCuboid |-> [s |-> <<BoxMesh12, Src("Cuboid", <<32, 16, 48>>, <<2, -1, 3>>, <<P12B>>)>>, o |-> PairObs, l |-> <<"in_one", "in_one", "out">>],
+  CuboidMesh |-> [s |-> <<Src("Cuboid", <<16, 32, 48>>, <<1, 2, 3>>, <<P12>>), [MeshSrc(<<BoxV(<<32, 16, 48>>), FlippedBoxFaces>>, <<2, -1, 3>>, <<P12B>>) EXCEPT !.rep = "from_mesh"]>>, o |-> PairObs, l |-> <<"in_one", "in_one", "out">>]]
 C12Ids == DOMAIN C12Defs
+C12Multi == {"MeshPair", "MeshCuboid", "CuboidMesh"}
 C12Base(id) == LET d == C12Defs[id]
                    far == IF id \in {"Dipole", "MeshTwoParts", "MeshOpen"} THEN <<>> ELSE <<ObsAt(P12, Far12, "far")>>
-               IN Cfg(16, <<d.s>>, [j \in 1..Len(d.o) |-> ObsAt(P12, d.o[j], d.l[j])] \o far, NoSensor)
+               IN Cfg(16, IF id \in C12Multi THEN d.s ELSE <<d.s>>, [j \in 1..Len(d.o) |-> ObsAt(P12, d.o[j], d.l[j])] \o far, NoSensor)
 
 \* ------------------------------------------------------------------ C13 palette (den = 4)
 P13 == Pose(<<2, -4, 6>>, RxRz)
@@ -113,13 +129,22 @@ C13Defs == [
   Circle |-> Cfg(4, <<Src("Circle", <<8>>, <<2>>, <<P13>>)>>, LoopObs13, NoSensor),
   Mesh |-> Cfg(4, <<MeshSrc(<<BoxV(<<4, 8, 12>>), BoxFaces>>, <<1, 2, 3>>, <<P13>>)>>, BoxObs13, NoSensor)]
 C13Ids == DOMAIN C13Defs
+\* observers exactly ON the straight extensions of all 12 edges (three directions) and on the extensions of face planes of the
+\* cuboid <<4, 8, 12>>, outside the body: no cut plane, no surface - every representation and partition must agree there too
+ExtLocal == <<<<2, 4, 9>>, <<-2, 4, -11>>, <<2, -4, -9>>, <<-2, -4, 13>>,  <<2, 7, 6>>, <<-2, -9, 6>>, <<2, -7, -6>>, <<-2, 11, -6>>,
+              <<5, 4, 6>>, <<-7, 4, -6>>, <<5, -4, -6>>, <<-5, -4, 6>>,  <<2, 7, 9>>, <<-5, 4, -9>>, <<5, -7, 6>>>>
+ExtObs(P) == [j \in 1..15 |-> ObsAt(P, ExtLocal[j], IF j <= 12 THEN "ext_edge" ELSE "ext_face")]
+PExtA == Pose(<<2, -4, 6>>, IdM)
+PExtB == Pose(<<-4, 2, 6>>, Rz90)
+C13Ext == [CuboidExtA |-> Cfg(4, <<Src("Cuboid", <<4, 8, 12>>, <<1, 2, 3>>, <<PExtA>>)>>, ExtObs(PExtA), NoSensor),
+           CuboidExtB |-> Cfg(4, <<Src("Cuboid", <<4, 8, 12>>, <<3, -1, 2>>, <<PExtB>>)>>, ExtObs(PExtB), NoSensor)]
 
 BaseIds == CASE Mode = "C03" -> {<<c, m>> : c \in C03Classes, m \in {"pts", "sens"}} \cup {<<"Pair", "pts">>}
              [] Mode = "C12" -> {<<id, "pts">> : id \in C12Ids}
-             [] Mode = "C13" -> {<<id, "pts">> : id \in C13Ids}
+             [] Mode = "C13" -> {<<id, "pts">> : id \in C13Ids} \cup {<<id, "ext">> : id \in DOMAIN C13Ext}
 BaseCfg(b) == CASE Mode = "C03" -> (IF b[1] = "Pair" THEN C03Pair ELSE C03Base(b[1], b[2]))
                 [] Mode = "C12" -> C12Base(b[1])
-                [] Mode = "C13" -> C13Defs[b[1]]
+                [] Mode = "C13" -> (IF b[2] = "ext" THEN C13Ext[b[1]] ELSE C13Defs[b[1]])
 
 \* ------------------------------------------------------------------ action palettes
 T1 == IF Tier = "quick" THEN {<<4, -8, 12>>} ELSE {<<0, 0, 0>>, <<4, -8, 12>>, <<-6, 2, 0>>}
@@ -141,6 +166,9 @@ CutSet(d) == {c \in 1..12 : c % (IF Tier = "thorough" /\ d = 0 THEN 2 ELSE 4) = 
 RCuts == {2, 4}
 PhiCuts(d) == IF Tier = "thorough" /\ d <= 1 THEN {4, 6, 8, 9, 12, 15, 16, 20} ELSE {8, 12, 15}
 MaxSrcs == IF Tier = "quick" THEN 3 ELSE 4
+Histories == {<<"reorient">>, <<"use", "reorient">>, <<"mesh", "reorient">>, <<"tricoll", "reorient", "use">>, <<"check", "use", "reorient">>}
+             \cup (IF Tier = "quick" THEN {} ELSE {<<"reorient", "use", "reorient">>, <<"check", "reorient">>, <<"use", "mesh", "tricoll", "reorient">>})
+LiveOps == IF Tier = "quick" THEN {"use", "reorient", "check"} ELSE {"use", "mesh", "tricoll", "check", "reorient"}
 ReprActs(cfg, d) ==
   LET I == 1..Len(cfg.srcs) IN
        (IF Len(cfg.srcs) < MaxSrcs
@@ -150,6 +178,10 @@ ReprActs(cfg, d) ==
              \cup {[name |-> "SplitSeg", i |-> i, kind |-> "z", cut |-> c] : i \in I, c \in CutSet(d)}
         ELSE {})
   \cup (IF Len(cfg.srcs) <= MaxSrcs THEN {[name |-> "Convert", i |-> i, rep |-> r] : i \in I, r \in Reps} ELSE {})
+  \* the mesh built un-normalised, used, normalised later (whole bodies and first-generation parts)
+  \cup (IF d <= 1 /\ Len(cfg.srcs) <= MaxSrcs THEN {[name |-> "Convert", i |-> i, rep |-> "MeshLate", ops |-> h] : i \in I, h \in Histories} ELSE {})
+  \* something is done to the live object of a mesh that stands alone
+  \cup (IF Len(cfg.srcs) = 1 THEN {[name |-> "Op", i |-> 1, op |-> o] : o \in LiveOps} ELSE {})
   \cup {[name |-> "Merge", i |-> i] : i \in I}
 \* the same abstract configuration under another generic global rotation: base configurations and a few moved ones
 Regauge(d, lst) == IF d = 0 \/ (d = 1 /\ M3(lst.g) \in Gens) THEN {[name |-> "Reconcretize"]} ELSE {}
@@ -159,6 +191,7 @@ Acts(cfg, d, lst) == CASE Mode = "C03" -> MoveActs(d) \cup Regauge(d, lst)
 
 Init == \E b \in BaseIds : base = b /\ cur = BaseCfg(b) /\ prev = BaseCfg(b) /\ last = [name |-> "Init"] /\ n = 0
 Next == /\ n < Depth /\ last.name # "Reconcretize"
+        /\ (base[2] = "ext" => n < 2)
         /\ \E act \in Acts(cur, n, last) :
               /\ EnabledAct(cur, act)
               /\ (act.name = "Merge" /\ last.name = "Split" => act.i # last.i)      \* do not just undo the previous step
@@ -178,7 +211,7 @@ Inv_C03 == Mode = "C03" => /\ Len(cur.srcs) = Len(BaseCfg(base).srcs) /\ LocalIn
 Inv_C12 == Mode = "C12" => LET b == BaseCfg(base) IN
              /\ [cur EXCEPT !.k = 0, !.ea = 0, !.srcs = b.srcs] = b
              /\ \A s \in 1..Len(b.srcs) : \E m \in {1, -1} : cur.srcs[s] = [b.srcs[s] EXCEPT !.exc = [j \in 1..Len(@) |-> m * @[j]]]
-             /\ \A j \in 1..Len(b.obs) : \A i \in 1..PathLen(b) : InsideClass(cur, 1, j, i) = InsideClass(b, 1, j, i)
+             /\ \A s \in 1..Len(b.srcs) : \A j \in 1..Len(b.obs) : \A i \in 1..PathLen(b) : InsideClass(cur, s, j, i) = InsideClass(b, s, j, i)
 \* C13: the total volume (6 V of the polyhedral bodies, the chart measure of the cylindrical ones) is conserved, every
 \* source keeps the polarization of the base body, every observer stays off every part
 Inv_C13 == Mode = "C13" => LET b == BaseCfg(base) IN
